@@ -2,6 +2,7 @@ import CG.Drv.Hex
 import CG.Model.TxValidate
 import CG.Spec.Conservation
 import CG.Model.TxScript
+import CG.Model.TxChecker
 import CG.Drv.Script
 namespace CG.Drv.C04
 open CG CG.Drv CG.Model.TxValidate
@@ -24,6 +25,9 @@ def parseIn (s : String) : Option TxIn :=
   | [h, i, u] => do
     let h ← parseHash h; let i ← i.toNat?; let u ← unhex u
     pure { prevOutput := ⟨h, i⟩, unlockScript := u, sequence := 0xffffffff }
+  | [h, i, u, q] => do
+    let h ← parseHash h; let i ← i.toNat?; let u ← unhex u; let q ← q.toNat?
+    pure { prevOutput := ⟨h, i⟩, unlockScript := u, sequence := q }
   | _ => none
 
 def parseOut (s : String) : Option TxOut :=
@@ -57,11 +61,15 @@ def trivialScript (unlock lock : Bytes) : Option (Outcome Bool) :=
     alone, then the locking script on the stack it left, fresh alt stack and control-flow state), decided here for scripts
     that contain no signature / timelock opcode byte at all (their checks need the transaction context, which C03 covers);
     `flags` = 1 for pre-genesis rules -/
-def realScript (flags : Nat) (unlock lock : Bytes) : Option (Outcome Bool) :=
-  let sigop := fun (b : UInt8) => b == 0xac || b == 0xad || b == 0xae || b == 0xaf || b == 0xb1 || b == 0xb2
+def realScript (x : Model.TxChecker.Ctx) (flags : Nat) (unlock lock : Bytes) : Option (Outcome Bool) :=
+  let sigop := fun (b : UInt8) => b == 0xac || b == 0xad || b == 0xae || b == 0xaf
   if (unlock ++ lock).any sigop then none
   else
-    let C := CG.Drv.Script.oracle 'e' 'e'
+    -- the timelock opcodes are answered by the model of `TransactionChecker::check_locktime/check_sequence` for this input
+    let C : Model.Interp.Checker CG.Drv.Script.OState :=
+      { (CG.Drv.Script.oracle 'e' 'e') with
+        checkLocktime := fun _ t => Model.TxChecker.checkLocktime x t
+        checkSequence := fun _ t => Model.TxChecker.checkSequence x t }
     let o : CG.Drv.Script.OState := { sigs := [], log := [] }
     match Model.TxScript.validateInput CG.Drv.Script.hashes C o unlock lock flags with
     | .ok _ => some (.ok true)
@@ -109,7 +117,11 @@ def handle (op : String) (a : List String) : Option String :=
               -- pre-genesis rules unless the Genesis rules are on and the spent output is not marked pre-genesis
               let pre := ((splitList pregen ",").filterMap String.toNat?).any fun k =>
                 match m[k]? with | some e => e.1 == tin.prevOutput | none => false
-              realScript (if gen == "1" && !pre then 0 else 1) tin.unlockScript o.lockScript
+              let stx : Model.TxSer.Tx :=
+                { version := 2, lockTime := lt, outputs := [],
+                  inputs := ins.map fun j => { prevOutput := ⟨j.prevOutput.hash, j.prevOutput.index⟩, unlockScript := j.unlockScript, sequence := j.sequence } }
+              realScript { tx := stx, input := i, satoshis := o.satoshis, requireForkid := false }
+                (if gen == "1" && !pre then 0 else 1) tin.unlockScript o.lockScript
       if (List.range ins.length).all (fun i => (oracle i).isSome) then
         let sok : Nat → Outcome Bool := fun i => (oracle i).getD (.ok false)
         let mres := validate p (gen == "1") tx ut sok
